@@ -113,7 +113,38 @@ def generate_burst(seed: int, tier: str, index: int) -> dict:
             "world": {"template": rng.choice(["small", "small", "empty"])}, "actors": [mgr]}
 
 
+def generate_crash(seed: int, tier: str, index: int) -> dict:
+    """Crash points: a management request dies at its k-th seam (k enumerated by the run index), the server
+    restarts on what survived on disk."""
+    rng = base.rng_for(seed, "gen-crash")
+    t0 = simclock.SimClock.parse(rng.choice(mc.T0_CHOICES))
+    names = ["alpha", "beta", "fza"]
+    fnames = ["va", "vb", "aa", "fza_v1"]
+    script = [{"op": "auth"}]
+    if rng.random() < 0.6:
+        script.append({"op": "add_stream", "dir": "alpha", "title": "A"})
+    for _ in range(rng.randrange(0, 3)):
+        script.append({"op": "upload", "which": rng.randrange(2), "file": forged_file(rng, rng.choice(fnames[:3]))})
+        script.append({"op": "index", "which_file": -1})
+    k = 2 + (index // 8) % 26
+    for _ in range(rng.choice([1, 1, 2])):
+        op = burst_op(rng, names, fnames)
+        while op["op"] == "get":
+            op = burst_op(rng, names, fnames)
+        script.append({"op": "crash", "request": op, "at": k})
+        script.append({"op": "probe", "n": 2})
+        k = 2 + rng.randrange(26)
+    script.append({"op": "readback"})
+    mgr = {"id": "mgr", "kind": "burster", "role": "media", "prng": rng.getrandbits(32),
+           "latency": {"min_us": 1000, "jitter_us": 0}, "script": script}
+    return {"property": ID, "seed": seed, "index": index, "tier": tier, "hashseed": index % base.HASHSEEDS,
+            "t0_us": t0, "sched_seed": rng.getrandbits(32), "family": "crash",
+            "world": {"template": rng.choice(["small", "small", "empty"])}, "actors": [mgr]}
+
+
 def generate(seed: int, tier: str, index: int) -> dict:
+    if index % 8 == 7:
+        return generate_crash(seed, tier, index)
     if index % 4 == 3:
         return generate_burst(seed, tier, index)
     rng = base.rng_for(seed, "gen")
@@ -349,6 +380,27 @@ class Oracle:
                 sim.violate("deletion-removed-unowned", f"{opname}/{t}",
                             f"{opname} removed rows it does not own from {t}: {str(extra)[:400]}; {msg.method} {msg.url}")
 
+    # -- second stage: a management request that dies at one of its seams
+    def on_crash(self, actor, st: dict, req: dict, outcome: dict) -> None:
+        sim = self.sim
+        op = req["recipe"]["op"]
+        sim.check("c17-crash-point")
+        if not outcome["crashed"]:
+            sim.world.probe("c17.crash-point-beyond-request")
+            return
+        label = (outcome["label"] or "?").replace("sql:", "")
+        sim.world.probe(f"c17.crashed/{op}")
+        if op in ("upload", "edit_media", "delete_media", "delete_stream"):
+            self.crashed_in = op       # these touch the blob store: read-back subjects carry the regime from now on
+        for rule, detail in referential_violations(outcome["state"], self.world.blob_dir):
+            key = f"{rule}|{detail}"
+            if key in self.known_bad:
+                continue
+            self.known_bad.add(key)
+            sim.violate(rule, f"after=crash:{op}@{label}",
+                        f"{detail}; the server died at seam {st.get('at')} ({outcome['label']}) of "
+                        f"{req['method']} {req['url'][:120]} and was restarted")
+
     # -- second stage: a burst of concurrent management requests
     def on_burst(self, actor, st: dict, reqs: list[dict], outcome: dict) -> None:
         sim = self.sim
@@ -398,7 +450,8 @@ class Oracle:
 
     def rb(self, subject: str) -> str:
         """Read-back subjects carry a regime tag once uploads have been served concurrently in this run."""
-        return subject + ("/after-concurrent-upload" if getattr(self, "concurrent_uploads", False) else "")
+        return subject + ("/after-concurrent-upload" if getattr(self, "concurrent_uploads", False) else "") + \
+            ("/after-crash-in-" + self.crashed_in if getattr(self, "crashed_in", None) else "")
 
     def on_readback_unknown(self, actor, directory: str, name: str) -> None:
         self.sim.check("c17-readback")
@@ -438,7 +491,7 @@ def execute(spec: dict) -> dict:
     world, info = worlds.instantiate("run", template, secrets_seed=base.sub_seed(spec["seed"], "secrets"))
     try:
         simclock.CLOCK.us = spec["t0_us"]
-        if spec.get("family") == "burst":
+        if spec.get("family") in ("burst", "crash"):
             # second stage: every connection parks at each statement while a burst is running
             world.stop()
             world.preemptive = True
